@@ -908,7 +908,7 @@ void NewPage(ShortInt Level, Boolean WithFF) {
 
 void WrLstLine(char const* Line) {
     int    LLength;
-    char   bbuf[2500];
+    char*  bbuf = NULL; /* the line with TABs expanded: up to 8 columns per character */
     String LLine;
     int    blen = 0, hlen, z, Start;
 
@@ -925,6 +925,10 @@ void WrLstLine(char const* Line) {
             LLength = 1;
         } else {
             blen = 0;
+            bbuf = (char*)malloc((strlen(Line) << 3) + 1);
+            if (!bbuf) {
+                return;
+            }
             for (z = 0; z < (int)strlen(Line); z++) {
                 if (Line[z] == Char_HT) {
                     memset(bbuf + blen, ' ', 8 - (blen & 7));
@@ -961,6 +965,9 @@ void WrLstLine(char const* Line) {
                 }
                 Start += hlen;
             }
+        }
+        if (bbuf) {
+            free(bbuf);
         }
     }
 }
